@@ -2,6 +2,7 @@ package main
 
 import (
 	"fmt"
+	"os"
 	"regexp"
 	"go/ast"
 	"go/token"
@@ -161,6 +162,10 @@ type Frame struct {
 	curBlk  *ssa.BasicBlock
 	curReach string
 	curSt    *State
+	jointExit map[*ssa.BasicBlock]bool // returning blocks whose [rundefers; loads; return] tail is executed once after merging
+	jointSts  []*State
+	jointGs   []string
+	jointBlk  *ssa.BasicBlock
 	objs     []*types.Var
 	objSeen  map[*types.Var]bool
 }
@@ -267,6 +272,10 @@ func (g *Gen) loopAnchors(fn *ssa.Function, loops map[*ssa.BasicBlock]*loopInfo)
 		var ps []token.Pos
 		for b := range li.body {
 			for _, in := range b.Instrs {
+				switch in.(type) {
+				case *ssa.Phi, *ssa.Alloc, *ssa.DebugRef:
+					continue // positions of declarations, possibly outside the loop
+				}
 				if p := in.Pos(); p.IsValid() {
 					ps = append(ps, p)
 				}
@@ -276,16 +285,19 @@ func (g *Gen) loopAnchors(fn *ssa.Function, loops map[*ssa.BasicBlock]*loopInfo)
 		// innermost loop statement that contains all positions
 		best := -1
 		for i, l := range all {
-			ok := len(ps) > 0
+			inside := 0
 			for _, p := range ps {
-				if p < l.pos || p > l.end {
-					ok = false
-					break
+				if p >= l.pos && p <= l.end {
+					inside++
 				}
 			}
+			ok := len(ps) > 0 && inside*10 >= len(ps)*9
 			if ok && (best < 0 || (all[i].end-all[i].pos) < (all[best].end-all[best].pos)) {
 				best = i
 			}
+		}
+		if os.Getenv("GOVC_DEBUG") != "" {
+			fmt.Fprintf(os.Stderr, "loop in %s header=%d nps=%d best=%d\n", fn.Name(), h.Index, len(ps), best)
 		}
 		if best >= 0 {
 			li.anchor = strings.TrimSpace(all[best].text)
@@ -614,9 +626,22 @@ func (g *Gen) merge(sts []*State, conds []string) *State {
 	for _, k := range cks {
 		var vs []Val
 		var cs []string
+		lazy := strings.HasPrefix(k, "ghost$") || strings.HasPrefix(k, "G$")
+		var sample Val
+		for _, s := range sts {
+			if v, ok := s.cells[k]; ok {
+				sample = v
+			}
+		}
 		for i, s := range sts {
 			if v, ok := s.cells[k]; ok {
 				vs = append(vs, v)
+				cs = append(cs, conds[i])
+			} else if lazy {
+				// never touched on this path: still the initial value
+				init := "C0$" + sanitize(k)
+				g.vc.decl(init, fmt.Sprintf("(declare-const %s %s)", init, sample.S))
+				vs = append(vs, Val{T: init, S: sample.S, Ty: sample.Ty})
 				cs = append(cs, conds[i])
 			}
 		}
@@ -753,7 +778,30 @@ func (g *Gen) execFunc(fr *Frame, st *State, guard string) ([]Val, *State, strin
 			}
 		}
 	}
+	fr.detectJointExit()
 	g.runBlocks(fr, order, st, guard, nil)
+	if len(fr.jointSts) > 0 {
+		// all returns share the tail [rundefers; result loads; return]: merge first, run the deferred calls once
+		var conds []string
+		conds = append(conds, fr.jointGs...)
+		mst := g.merge(fr.jointSts, conds)
+		mr := g.vc.define(fr.id+"jx", "Bool", sOr(conds...))
+		fr.curBlk = fr.jointBlk
+		fr.curReach = mr
+		fr.curSt = mst
+		started := false
+		for _, in := range fr.jointBlk.Instrs {
+			if _, ok := in.(*ssa.RunDefers); ok {
+				started = true
+			}
+			if !started {
+				continue
+			}
+			if !g.execInstr(fr, mst, in, mr) {
+				break
+			}
+		}
+	}
 	// merge returns
 	if len(fr.rets) == 0 {
 		return nil, st, "false"
@@ -862,6 +910,13 @@ func (g *Gen) runBlocks(fr *Frame, order []*ssa.BasicBlock, st0 *State, guard st
 			if _, ok := in.(*ssa.Phi); ok {
 				continue
 			}
+			if _, ok := in.(*ssa.RunDefers); ok && fr.jointExit[b] && only == nil && g.dry == 0 {
+				fr.jointSts = append(fr.jointSts, st)
+				fr.jointGs = append(fr.jointGs, r)
+				fr.jointBlk = b
+				alive = false
+				break
+			}
 			if !g.execInstr(fr, st, in, r) {
 				alive = false
 				break
@@ -962,6 +1017,12 @@ func (g *Gen) enterLoop(fr *Frame, li *loopInfo, st *State, r string, order []*s
 	for _, inv := range li.invs {
 		env := g.envFor(fr, st)
 		env.pos = li.bodyPos
+		for _, in := range li.header.Instrs {
+			if phi, ok := in.(*ssa.Phi); ok && phi.Comment == "rangeindex" {
+				v := fr.val(phi)
+				env.loopIdx = &v
+			}
+		}
 		v, err := g.evalBool(inv.Expr, env)
 		if err != nil {
 			g.contractError(inv, err)
@@ -988,6 +1049,15 @@ func (g *Gen) checkInvariants(fr *Frame, li *loopInfo, st *State, guard string, 
 	for _, inv := range li.invs {
 		env := g.envFor(fr, st)
 		env.pos = li.bodyPos
+		for _, in := range li.header.Instrs {
+			if phi, ok := in.(*ssa.Phi); ok && phi.Comment == "rangeindex" {
+				v := fr.val(phi)
+				if backEdge >= 0 {
+					v = fr.val(phi.Edges[backEdge])
+				}
+				env.loopIdx = &v
+			}
+		}
 		if backEdge >= 0 {
 			// source variables bound to loop phis take their back-edge values
 			env.st = st.Clone()
@@ -1157,4 +1227,76 @@ func (fr *Frame) collectObjs() {
 		}
 	}
 	sort.SliceStable(fr.objs, func(i, j int) bool { return fr.objs[i].Pos() < fr.objs[j].Pos() })
+}
+
+// detectJointExit finds functions all of whose returning blocks end in the same tail
+// [rundefers; loads of result cells...; return], so that deferred calls can be executed once on the merged state.
+func (fr *Frame) detectJointExit() {
+	fr.jointExit = nil
+	var blocks []*ssa.BasicBlock
+	var sig string
+	hasDefer := false
+	for _, b := range fr.fn.Blocks {
+		for _, in := range b.Instrs {
+			if _, ok := in.(*ssa.Defer); ok {
+				hasDefer = true
+			}
+		}
+		if len(b.Instrs) == 0 || b == fr.fn.Recover {
+			continue
+		}
+		if _, ok := b.Instrs[len(b.Instrs)-1].(*ssa.Return); !ok {
+			continue
+		}
+		// tail from the last RunDefers
+		ri := -1
+		for i, in := range b.Instrs {
+			if _, ok := in.(*ssa.RunDefers); ok {
+				ri = i
+			}
+		}
+		if ri < 0 {
+			return
+		}
+		var parts []string
+		for _, in := range b.Instrs[ri+1:] {
+			switch x := in.(type) {
+			case *ssa.UnOp:
+				if _, ok := x.X.(*ssa.Alloc); !ok || x.Op.String() != "*" {
+					return
+				}
+				parts = append(parts, "load "+x.X.Name())
+			case *ssa.Return:
+				for _, r := range x.Results {
+					if u, ok := r.(*ssa.UnOp); ok {
+						parts = append(parts, "ret "+u.X.Name())
+					} else if c, ok := r.(*ssa.Const); ok {
+						parts = append(parts, "retc "+c.String())
+					} else {
+						return
+					}
+				}
+			case *ssa.DebugRef:
+			default:
+				return
+			}
+		}
+		s := strings.Join(parts, ";")
+		if sig == "" {
+			sig = s
+		} else if s != sig {
+			return
+		}
+		blocks = append(blocks, b)
+	}
+	if os.Getenv("GOVC_DEBUG") != "" {
+		fmt.Fprintf(os.Stderr, "jointExit %s: hasDefer=%v blocks=%d sig=%q\n", fr.fn.Name(), hasDefer, len(blocks), sig)
+	}
+	if !hasDefer || len(blocks) < 2 {
+		return
+	}
+	fr.jointExit = map[*ssa.BasicBlock]bool{}
+	for _, b := range blocks {
+		fr.jointExit[b] = true
+	}
 }
